@@ -38,3 +38,41 @@ Example C07_LA_utfr_complete_nonvacuous :
   length (a_effs (snd (hd (0%N, UtfrWitness.an)
                           (p_actions (utfr_compile UtfrWitness.idf UtfrWitness.idf UtfrWitness.Pn))))) = 5%nat.
 Proof. exact utfr_nonvacuous. Qed.
+
+(* with the walker MODEL [utr] (+ simplify) in place of the abstract walker: [tr_ok] is replaced by the decidable
+   conditions [conds_flat] and [types_inhabited] (Props/C06_utfr.v: C06_LA_utfr_walker_flat) *)
+Theorem C07_LA_utfr_same_plans_reference :
+  forall (smp : expr -> expr) (fv : N -> N) (P : problem) (G : state -> Prop),
+    smp_exact smp -> conds_flat P fv = true -> types_inhabited P = true ->
+    utfr_wf (fun e => smp (utr (otype P) fv e)) smp P = true ->
+    effects_defined P G -> one_value P G -> closed P G -> unique_ids P ->
+  forall (s s' : state) (pi : list (N * list value)), G s -> utfr_rel P s s' ->
+    valid_plan false (utfr_compile (fun e => smp (utr (otype P) fv e)) smp P) s' pi = valid_plan false P s pi.
+Proof. exact u_valid_plan_reference. Qed.
+Print Assumptions C07_LA_utfr_same_plans_reference.
+
+Theorem C07_LA_utfr_complete_reference :
+  forall (smp : expr -> expr) (fv : N -> N) (P : problem) (G : state -> Prop),
+    smp_exact smp -> conds_flat P fv = true -> types_inhabited P = true ->
+    utfr_wf (fun e => smp (utr (otype P) fv e)) smp P = true ->
+    effects_defined P G -> one_value P G -> closed P G -> unique_ids P ->
+  forall (s s' : state) (pi : list (N * list value)), G s -> utfr_rel P s s' ->
+    valid_plan false P s pi = true ->
+    valid_plan false (utfr_compile (fun e => smp (utr (otype P) fv e)) smp P) s' pi = true.
+Proof. exact u_complete_reference. Qed.
+Print Assumptions C07_LA_utfr_complete_reference.
+
+Example C07_LA_utfr_complete_reference_nonvacuous :
+  smp_exact UtfrWitness.idf /\ conds_flat UtfrRef.Pr UtfrRef.fvr = true /\ types_inhabited UtfrRef.Pr = true /\
+  utfr_wf UtfrRef.trr UtfrWitness.idf UtfrRef.Pr = true /\
+  effects_defined UtfrRef.Pr UtfrRef.Gr /\ one_value UtfrRef.Pr UtfrRef.Gr /\ closed UtfrRef.Pr UtfrRef.Gr /\
+  unique_ids UtfrRef.Pr /\ UtfrRef.Gr UtfrRef.sr /\
+  utfr_rel UtfrRef.Pr UtfrRef.sr (enc_state UtfrRef.Pr UtfrRef.sr) /\
+  valid_plan false UtfrRef.Pr UtfrRef.sr UtfrRef.planr = true /\
+  valid_plan false UtfrRef.Pr' (enc_state UtfrRef.Pr UtfrRef.sr) UtfrRef.planr = true /\
+  valid_plan false UtfrRef.Pr' (enc_state UtfrRef.Pr UtfrRef.sr) [(0%N, [VObj 2%N]); (0%N, [VObj 1%N])] = true /\
+  valid_plan false UtfrRef.Pr' (enc_state UtfrRef.Pr UtfrRef.sr) [(0%N, [VObj 1%N]); (0%N, [VObj 1%N])] = false /\
+  map (fun ia => a_pre (snd ia)) (p_actions UtfrRef.Pr') =
+    [[EExists [(100%N, 0%N)]
+        (EAnd [EEquals (EVar 100%N 0%N) (EObj 1%N); EFluent 0%N [EParam 7%N; EVar 100%N 0%N]])]].
+Proof. exact utfr_reference_nonvacuous. Qed.
